@@ -135,7 +135,7 @@ func checkC18(r *Run) {
 	run := func(c *enumCtx, s []byte) {
 		n := 0
 		acc := false
-		for _, src := range []int{0, 9} {
+		for _, src := range []int{0, 9, 65535 - len(s), 65535 - len(s) - 2} {
 			for _, tg := range tgts(len(s)) {
 				for span := 0; span <= len(s)+3; span++ {
 					if tg+span > 65535 {
@@ -195,6 +195,6 @@ func init() {
 		return vs
 	}
 	register("C18", &checkDef{fn: checkC18,
-		rule:        "E4: every accepted URI of the bounded space x source offset {0,9} x target offsets {0,1,7,255,256,limit} x every span 0..len+3 through AdjustOffs, plus Long/Short/Flat/Truncate; oracle by construction (same bytes in the target buffer, absent stays absent, refusal leaves the structure intact); states = accepted URIs, transitions = relocations; non-trivial = accepted URI",
+		rule:        "E4: every accepted URI of the bounded space x source offset {0,9,65535-len,65533-len} x target offsets {0,1,7,255,256,limit} x every span 0..len+3 through AdjustOffs, plus Long/Short/Flat/Truncate; oracle by construction (same bytes in the target buffer, absent stays absent, refusal leaves the structure intact); states = accepted URIs, transitions = relocations; non-trivial = accepted URI",
 		quickBudget: 120 * time.Second, thorBudget: 20 * time.Minute})
 }
